@@ -466,7 +466,7 @@ def run_property(args):
         print(f"UNDECIDED {u}")
     for c, e in errors + crashes:
         print(f"CHECKER-ERROR {c}: {e}")
-    for l in lines:
+    for l in dict.fromkeys(lines):
         print(l)
     return rc
 
